@@ -115,7 +115,10 @@ def kamstrup_body(items, V, meter_type=None, padding=()):
     for k, it in enumerate(items):
         kind, obis = it[0], it[1]; out += [T_OCTETS, 6] + list(obis); nm = key_of(obis)
         if kind == "str":
-            chars = list(meter_type) if (meter_type is not None and tuple(obis) == (1, 1, 96, 1, 1, 255)) else V.text(f"k{k}_text", it[2])
+            if meter_type is not None and tuple(obis) == (1, 1, 96, 1, 1, 255): chars = list(meter_type)
+            else:
+                chars = V.text(f"k{k}_text", it[2])
+                if tuple(obis) == (1, 1, 96, 1, 1, 255): V.not_prefix(chars, b"685")      # symbolic meter type numbers stand for direct-connected meters; CT types have their own cases
             out += [T_VISIBLE, len(chars)] + chars; exp[nm] = ("text", chars)
         elif kind == "dt":
             octs, spec = enc_datetime(V, f"k{k}_dt"); out += [T_OCTETS] + octs; exp[nm] = spec
@@ -126,3 +129,56 @@ def kamstrup_body(items, V, meter_type=None, padding=()):
             else: exp[nm] = ("int", reg)
         if (k + 1) in padding: out += [T_NULL] * (1 + (k % 3))
     return out, exp
+
+# ----------------------------------------------------------------------------- the cases each property enumerates: label -> builder(V) -> (module, function, octets, expected)
+def frame_case(module, body_fn, dt_form, clock_from_apdu):
+    def build(V):
+        body, exp = body_fn(V); hdr, dts = llc_apdu_header(V, dt_form)
+        exp = dict(exp)
+        if clock_from_apdu == "always" and dts is not None: exp["meter_datetime"] = dts
+        elif clock_from_apdu == "unless_in_list" and dts is not None and "meter_datetime" not in exp: exp["meter_datetime"] = dts
+        return module, "decode_frame_content", hdr + body, exp
+    return build
+def body_case(module, body_fn):
+    def build(V):
+        body, exp = body_fn(V); return module, "decode_notification_body", body, exp
+    return build
+
+def aidon_cases():
+    c = {}
+    for name, items in AIDON_LISTS.items():
+        c[f"aidon body {name}"] = body_case("han.aidon", lambda V, items=items: aidon_body(items, V))
+        c[f"aidon frame {name} (no APDU clock)"] = frame_case("han.aidon", lambda V, items=items: aidon_body(items, V), "null", None)
+    c["aidon frame list1 (tagged APDU clock, not used)"] = frame_case("han.aidon", lambda V: aidon_body(AIDON_LISTS["list1"], V), "tagged", None)
+    return c
+def kaifa_cases():
+    c = {}
+    for n in (1, 9, 13, 14, 18):
+        c[f"kaifa body {n} values"] = body_case("han.kaifa", lambda V, n=n: kaifa_value_body(n, V))
+        c[f"kaifa frame {n} values (tagged APDU clock)"] = frame_case("han.kaifa", lambda V, n=n: kaifa_value_body(n, V), "tagged", "unless_in_list")
+    c["kaifa frame 9 values (untagged APDU clock)"] = frame_case("han.kaifa", lambda V: kaifa_value_body(9, V), "untagged", "unless_in_list")
+    c["kaifa body swedish obis list"] = body_case("han.kaifa", lambda V: kaifa_obis_body(KAIFA_SE, V))
+    c["kaifa frame swedish obis list (no APDU clock)"] = frame_case("han.kaifa", lambda V: kaifa_obis_body(KAIFA_SE, V), "null", None)
+    return c
+def kamstrup_cases():
+    c = {}
+    for phases in (1, 3):
+        for hourly in (False, True):
+            items = kamstrup_items(phases, hourly); nm = f"{'hourly' if hourly else '10s'} list {phases}-phase"
+            c[f"kamstrup body {nm}"] = body_case("han.kamstrup", lambda V, items=items: kamstrup_body(items, V))
+            c[f"kamstrup frame {nm} (untagged APDU clock)"] = frame_case("han.kamstrup", lambda V, items=items: kamstrup_body(items, V), "untagged", "always")
+    it3 = kamstrup_items(3, True)
+    c["kamstrup body hourly 3-phase with null padding"] = body_case("han.kamstrup", lambda V: kamstrup_body(it3, V, padding=(0, 2, 5, len(it3))))
+    c["kamstrup body 10s 3-phase CT meter (type 685...)"] = body_case("han.kamstrup", lambda V: kamstrup_body(kamstrup_items(3, False), V, meter_type=b"685700000000000000"))
+    c["kamstrup frame 10s 1-phase CT meter (tagged APDU clock)"] = frame_case("han.kamstrup", lambda V: kamstrup_body(kamstrup_items(1, False), V, meter_type=b"685123456789012345"), "tagged", "always")
+    c["kamstrup body 10s 3-phase direct meter (type 684...)"] = body_case("han.kamstrup", lambda V: kamstrup_body(kamstrup_items(3, False), V, meter_type=b"684700000000000000"))
+    return c
+def datetime_cases():
+    """C10: the six syntactic positions of a COSEM date-time"""
+    one_dt = [("dt", (0, 0, 1, 0, 0, 255))]
+    return {"APDU header, tagged (Kaifa frame)": frame_case("han.kaifa", lambda V: kaifa_value_body(1, V), "tagged", "unless_in_list"),
+            "APDU header, untagged (Kamstrup frame)": frame_case("han.kamstrup", lambda V: kamstrup_body(kamstrup_items(1, False), V), "untagged", "always"),
+            "Aidon list element": body_case("han.aidon", lambda V: aidon_body(one_dt, V)),
+            "Kaifa positional list element": body_case("han.kaifa", lambda V: kaifa_value_body(14, V)),
+            "Kaifa OBIS list element": body_case("han.kaifa", lambda V: kaifa_obis_body(one_dt + [("num", (1, 0, 1, 7, 0, 255))], V)),
+            "Kamstrup list element": body_case("han.kamstrup", lambda V: kamstrup_body([("dt", (0, 1, 1, 0, 0, 255))], V))}
